@@ -3,7 +3,7 @@
 From Coq Require Import String.
 From Coq Require Import List Arith ZArith.
 Import ListNotations.
-From YP Require Import Base.Str Term.Term Unify.Unify Unify.Mgu Unify.Rename Unify.Base Unify.UnifyGen Unify.LateStart Unify.RunUnifySched Unify.SchedSpec.
+From YP Require Import Base.Str Term.Term Unify.Unify Unify.Mgu Unify.Rename Unify.Base Unify.UnifyGen Unify.LateStart Unify.RunUnifySched Unify.SchedSpec Unify.ConstRecode.
 
 (* "started under any stack of already active bindings" = any acyclic store s (wf s);
    "at the yield both terms dereference to the same term": den s' t1 = den s' t2 where
@@ -247,3 +247,21 @@ Proof.
   - repeat constructor.
   - eexists. vm_compute. split; reflexivity.
 Qed.
+
+(* round 4: unification depends on the constants in the terms only through which of them are equal - it commutes with every
+   injective recoding of the integer and string constants.  The correspondence check relies on this when it hands Python
+   constants (None, floats, bools, big integers, bytes ... built through the API) to the model as codes of their classes
+   under Python `==` (harness/lib/pyconsts.py): outcome and bindings do not depend on the choice of codes. *)
+Theorem C02_unify_constant_recoding : forall (fi : Z -> Z) (fs : str -> str),
+  (forall a b, fi a = fi b -> a = b) -> (forall a b, fs a = fs b -> a = b) ->
+  forall n s a b, unify n (rc_store fi fs s) (rc fi fs a) (rc fi fs b) = rc_res fi fs (unify n s a b).
+Proof. exact unify_recode. Qed.
+Print Assumptions C02_unify_constant_recoding.
+
+(* non-vacuity: recoding 1 -> 7, 2 -> 9 (injective: z -> 2z+5) on f(X, 1, X) = f(2, Y, Z) *)
+Example C02_recoding_nonvacuous :
+  let fi := fun z => (2 * z + 5)%Z in
+  let a := TFun (d "f"%string) [TVar 0; TInt 1; TVar 0] in let b := TFun (d "f"%string) [TInt 2; TVar 1; TVar 2] in
+  unify 10 [] a b = UOk [(2, TInt 2); (1, TInt 1); (0, TInt 2)] /\
+  unify 10 [] (rc fi (fun s => s) a) (rc fi (fun s => s) b) = UOk [(2, TInt 9); (1, TInt 7); (0, TInt 9)].
+Proof. vm_compute. split; reflexivity. Qed.
